@@ -1,9 +1,46 @@
 /-
-Lemmas about the regenerated pattern table (C10): table-specific facts.
+Lemmas about the regenerated pattern table (C10): the only pattern without a symbol is
+`\\s+`, so skipped text is whitespace.
 -/
-import Emboss.Lemmas.TokFile
-import Emboss.Generated.TokTable
+import Emboss.Lemmas.TokNumberClass
 namespace Emboss.Tok
-open Emboss.Regex Emboss.Generated
+open Emboss.Regex Emboss.Tok.Class Emboss.Generated
+
+theorem lang_rep_chr {r pre rest} (h : Lang r pre rest) :
+    ∀ c mn mx, r = .rep (.chr c) mn mx → pre.all c.mem = true := by
+  induction h with
+  | eps => intro c mn mx hr; cases hr
+  | chr => intro c mn mx hr; cases hr
+  | seq => intro c mn mx hr; cases hr
+  | altL => intro c mn mx hr; cases hr
+  | altR => intro c mn mx hr; cases hr
+  | repStop => intro c mn mx _; rfl
+  | repIter _ hu _ _ ihv =>
+    intro c mn mx hr
+    cases hr
+    cases hu with
+    | chr _ x _ hm =>
+      simp only [List.cons_append, List.nil_append, List.all_cons, hm, Bool.true_and]
+      exact ihv c _ _ rfl
+  | eol => intro c mn mx hr; cases hr
+
+theorem nosym_is_space : tokTable.pats.all (fun p => p.sym.isSome || p.re == reSpace) = true := by
+  decide +kernel
+
+/-- Text skipped between tokens was matched by `\\s+`: it is whitespace only. -/
+theorem gap_is_whitespace {s : List Char} {n : Nat} (h : IsBest tokTable.pats s n none) :
+    (s.take n).all isSpaceChar = true := by
+  obtain ⟨pre, p, post, hp, hm, hs, _, _⟩ := h
+  have hmem : p ∈ tokTable.pats := by rw [hp]; simp
+  have := List.all_eq_true.mp nosym_is_space p hmem
+  rw [hs] at this
+  simp only [Option.isSome_none, Bool.false_or, beq_iff_eq] at this
+  obtain ⟨_, hl⟩ := matchLen_sound _ _ _ hm
+  rw [this] at hl
+  have := lang_rep_chr hl cSpace 1 none rfl
+  rw [List.all_eq_true] at this ⊢
+  intro x hx
+  have := this x hx
+  simpa [cSpace, CClass.mem, CItem.mem, isSpaceChar] using this
 
 end Emboss.Tok
